@@ -367,7 +367,11 @@ func init() {
 			items = v.([]Value)
 		}
 		// nondeterministically reuse any pooled object or allocate a new one
-		c := in.choose(len(items)+1, "pool.Get")
+		c := len(items) // default: reuse the most recently pooled object (what one P does)
+		if in.params["pool_choice"] == 1 {
+			// every possibility: a new object or any pooled one
+			c = in.choose(len(items)+1, "pool.Get")
+		}
 		if c > 0 {
 			it := items[c-1]
 			items = append(append([]Value{}, items[:c-1]...), items[c:]...)
@@ -390,6 +394,69 @@ func init() {
 		}
 		if iv, ok := a[1].(Iface); ok && iv.t != nil {
 			in.sides[k] = append(items, a[1])
+		}
+		return nil, true
+	})
+
+	// ---- sync.Map: a plain map kept in a side table (operations are visible points)
+	syncMap := func(in *Interp, p *Ptr) *MapV {
+		k := fmt.Sprintf("syncmap/%d%v", p.obj.id, p.path)
+		if v, ok := in.sides[k]; ok {
+			return v.(*MapV)
+		}
+		in.nextObj++
+		m := &MapV{id: in.nextObj, idx: map[string]int{}}
+		in.sides[k] = m
+		return m
+	}
+	reg("(*sync.Map).Load", func(in *Interp, _ *Frame, _ *ssa.Function, a []Value) (Value, bool) {
+		in.sched.yield()
+		m := syncMap(in, ptr0(a))
+		if i := in.mapFind(m, a[1]); i >= 0 {
+			return TupleV{m.entries[i].v, in.F.Bool(true)}, true
+		}
+		return TupleV{Iface{}, in.F.Bool(false)}, true
+	})
+	reg("(*sync.Map).Store", func(in *Interp, _ *Frame, _ *ssa.Function, a []Value) (Value, bool) {
+		in.sched.yield()
+		in.mapSet(syncMap(in, ptr0(a)), a[1], a[2])
+		return nil, true
+	})
+	reg("(*sync.Map).LoadOrStore", func(in *Interp, _ *Frame, _ *ssa.Function, a []Value) (Value, bool) {
+		in.sched.yield()
+		m := syncMap(in, ptr0(a))
+		if i := in.mapFind(m, a[1]); i >= 0 {
+			return TupleV{m.entries[i].v, in.F.Bool(true)}, true
+		}
+		in.mapSet(m, a[1], a[2])
+		return TupleV{a[2], in.F.Bool(false)}, true
+	})
+	reg("(*sync.Map).LoadAndDelete", func(in *Interp, _ *Frame, _ *ssa.Function, a []Value) (Value, bool) {
+		in.sched.yield()
+		m := syncMap(in, ptr0(a))
+		if i := in.mapFind(m, a[1]); i >= 0 {
+			v := m.entries[i].v
+			in.mapDelete(m, a[1])
+			return TupleV{v, in.F.Bool(true)}, true
+		}
+		return TupleV{Iface{}, in.F.Bool(false)}, true
+	})
+	reg("(*sync.Map).Delete", func(in *Interp, _ *Frame, _ *ssa.Function, a []Value) (Value, bool) {
+		in.sched.yield()
+		in.mapDelete(syncMap(in, ptr0(a)), a[1])
+		return nil, true
+	})
+	reg("(*sync.Map).Range", func(in *Interp, caller *Frame, _ *ssa.Function, a []Value) (Value, bool) {
+		in.sched.yield()
+		m := syncMap(in, ptr0(a))
+		for _, e := range append([]*MapEntry{}, m.entries...) {
+			if e == nil {
+				continue
+			}
+			r := in.call(caller, a[1], []Value{e.k, e.v}, nil)
+			if !in.decide(r.(*Term)) {
+				break
+			}
 		}
 		return nil, true
 	})
@@ -523,6 +590,76 @@ func init() {
 			})
 		}
 	}
+	// pion/randutil generators: opaque identifiers (ufrag, pwd, msid, SSRC...). They are
+	// modelled as fixed, pairwise distinct values so that text built from them stays concrete.
+	randGen := func(in *Interp, _ *Frame, fn *ssa.Function, a []Value) (Value, bool) {
+		in.noteOnce("pion/randutil generators return fixed pairwise-distinct values (identifiers are opaque)")
+		next := func(in *Interp) uint64 {
+			in.randCount++
+			return uint64(in.randCount)
+		}
+		f := &FakeObj{name: "randutil", methods: map[string]func(in *Interp, args []Value) Value{
+			"Intn": func(in *Interp, args []Value) Value {
+				n := in.concreteInt(args[1].(*Term), "Intn")
+				if n <= 0 {
+					in.goPanicRuntime("invalid argument to Intn")
+				}
+				return in.F.Const(64, next(in)%uint64(n))
+			},
+			"Uint32": func(in *Interp, args []Value) Value { return in.F.Const(32, 1000000+next(in)) },
+			"Uint64": func(in *Interp, args []Value) Value { return in.F.Const(64, 1000000000+next(in)) },
+			"GenerateString": func(in *Interp, args []Value) Value {
+				n := int(in.concreteInt(args[1].(*Term), "GenerateString"))
+				runes, _ := args[2].(Str).Concrete()
+				if runes == "" {
+					runes = "a"
+				}
+				k := next(in)
+				b := make([]byte, n)
+				for i := range b {
+					b[i] = runes[int(k+uint64(i)*7)%len(runes)]
+				}
+				return Str{s: string(b)}
+			},
+		}}
+		rt := fn.Signature.Results().At(0).Type()
+		return Iface{t: rt, v: f}, true
+	}
+	reg("github.com/pion/randutil.NewMathRandomGenerator", randGen)
+	reg("github.com/pion/randutil.GenerateCryptoRandomString", func(in *Interp, _ *Frame, _ *ssa.Function, a []Value) (Value, bool) {
+		n := int(in.concreteInt(a[0].(*Term), "GenerateCryptoRandomString"))
+		runes, _ := a[1].(Str).Concrete()
+		if runes == "" {
+			runes = "a"
+		}
+		in.randCount++
+		b := make([]byte, n)
+		for i := range b {
+			b[i] = runes[(in.randCount+i*5)%len(runes)]
+		}
+		return TupleV{Str{s: string(b)}, Iface{}}, true
+	})
+	reg("github.com/pion/randutil.CryptoUint64", func(in *Interp, _ *Frame, _ *ssa.Function, a []Value) (Value, bool) {
+		in.randCount++
+		return TupleV{in.F.Const(64, 7000000000+uint64(in.randCount)), Iface{}}, true
+	})
+	for _, n := range []string{"math/rand.Uint32", "math/rand.Int31", "math/rand.Int63", "math/rand.Uint64", "math/rand.Int"} {
+		reg(n, func(in *Interp, _ *Frame, fn *ssa.Function, a []Value) (Value, bool) {
+			in.noteOnce("math/rand returns fixed pairwise-distinct values")
+			in.randCount++
+			w, _, _ := intWidth(fn.Signature.Results().At(0).Type())
+			return in.F.Const(w, 2000000+uint64(in.randCount)), true
+		})
+	}
+	reg("math/rand.Intn", func(in *Interp, _ *Frame, fn *ssa.Function, a []Value) (Value, bool) {
+		n := in.concreteInt(a[0].(*Term), "rand.Intn")
+		in.randCount++
+		return in.F.Const(64, uint64(in.randCount)%uint64(n)), true
+	})
+	reg("time.runtimeNano", func(in *Interp, _ *Frame, _ *ssa.Function, a []Value) (Value, bool) {
+		in.clockTicks++
+		return in.F.Const(64, uint64(in.clockTicks)*1000000000), true
+	})
 	// process environment: no variables set (pion reads only PION_LOG_* there)
 	reg("os.Getenv", func(in *Interp, _ *Frame, _ *ssa.Function, a []Value) (Value, bool) {
 		in.noteOnce("os.Getenv returns the empty string (no environment variables set)")
@@ -530,9 +667,15 @@ func init() {
 	})
 	// randomness is environment: arbitrary values
 	reg("github.com/pion/webrtc/v4/internal/util.RandUint32", func(in *Interp, _ *Frame, _ *ssa.Function, a []Value) (Value, bool) {
+		if in.params["symbolic_random"] != 1 {
+			return nil, false // real body over the fixed-value generator
+		}
 		return in.nondet("env_rand32", BV(32)), true
 	})
 	reg("github.com/pion/webrtc/v4/internal/util.MathRandAlpha", func(in *Interp, _ *Frame, _ *ssa.Function, a []Value) (Value, bool) {
+		if in.params["symbolic_random"] != 1 {
+			return nil, false
+		}
 		n := int(in.concreteInt(a[0].(*Term), "MathRandAlpha"))
 		bs := make([]*Term, n)
 		for i := range bs {
@@ -573,6 +716,10 @@ func init() {
 		reg("internal/race."+n, func(in *Interp, _ *Frame, _ *ssa.Function, a []Value) (Value, bool) { return nil, true })
 	}
 
+	reg("internal/bytealg.MakeNoZero", func(in *Interp, _ *Frame, _ *ssa.Function, a []Value) (Value, bool) {
+		n := int(in.concreteInt(a[0].(*Term), "MakeNoZero"))
+		return in.makeSlice(types.Typ[types.Uint8], n, n), true
+	})
 	// ---- bytealg leaves (assembly in the real build)
 	reg("internal/bytealg.IndexByteString", func(in *Interp, _ *Frame, _ *ssa.Function, a []Value) (Value, bool) {
 		return in.indexByte(in.strBytes(a[0].(Str)), a[1].(*Term)), true
